@@ -341,24 +341,52 @@ func domOwnFirst(r *engine.Run) {
 
 func depWalk(r *engine.Run) {
 	const rule = "DEP-walk"
-	f := r.Fn(rule, pkgSC, "StateCache", "Get")
-	if f == nil {
+	top := r.Fn(rule, pkgSC, "StateCache", "Get")
+	if top == nil {
 		return
 	}
+	if len(top.Params) != 3 {
+		r.Anchor(rule, fmt.Errorf("unresolved anchor: block-hash parameter of %s", fn(top)))
+		return
+	}
+	depWalkIn(r, rule, top, top.Params[1], top.Params[2])
+	// the walk (or part of it) may live in a helper of Get: the helper is analysed with the
+	// parameters that receive the queried key and hash at its call site
+	group := opGroup(r, top)
+	for _, g := range group[1:] {
+		for _, e := range r.P.RepoCG().In[g] {
+			c, ok := e.Site.(ssa.CallInstruction)
+			if !ok || !inGroup(group, engine.TopFunc(e.Caller)) {
+				continue
+			}
+			var keyP, hashP *ssa.Parameter
+			for i, a := range c.Common().Args {
+				if i >= len(g.Params) {
+					break
+				}
+				if a == ssa.Value(top.Params[1]) {
+					keyP = g.Params[i]
+				}
+				if a == ssa.Value(top.Params[2]) {
+					hashP = g.Params[i]
+				}
+			}
+			if hashP != nil {
+				depWalkIn(r, rule, g, keyP, hashP)
+			}
+			break
+		}
+	}
+	r.Min(rule, 4)
+}
+
+func depWalkIn(r *engine.Run, rule string, f *ssa.Function, keyParam, hashParam *ssa.Parameter) {
 	const (
 		labQueried engine.Label = 1 << 30
 		labLink    engine.Label = 1 << 31
 		labEntry   engine.Label = 1 << 32
 		labOther   engine.Label = 1 << 33
 	)
-	var hashParam *ssa.Parameter
-	if len(f.Params) == 3 {
-		hashParam = f.Params[2]
-	}
-	if hashParam == nil {
-		r.Anchor(rule, fmt.Errorf("unresolved anchor: block-hash parameter of %s", fn(f)))
-		return
-	}
 	spec := engine.FlowSpec{
 		Param: func(p *ssa.Parameter, i int) engine.Label {
 			if p == hashParam {
@@ -403,7 +431,7 @@ func depWalk(r *engine.Run) {
 			// keyed by the key parameter
 			k := through(c.Call.Args[1])
 			r.CallSites++
-			r.Check(k == ssa.Value(f.Params[1]), rule, o.next(fn(f)+"|cache-key"), r.P.Pos(c.Pos()),
+			r.Check(keyParam != nil && k == ssa.Value(keyParam), rule, o.next(fn(f)+"|cache-key"), r.P.Pos(c.Pos()),
 				"key->versions map addressed by the queried key", "the key->versions map is addressed by something other than the queried key")
 		case lruCallOnField(c, "Get", "hashCache"):
 			l := fl.Of(c.Call.Args[1])
@@ -477,7 +505,6 @@ func depWalk(r *engine.Run) {
 				"memoised value is the entry found on the chain", "the memoised value is not the entry found on the ancestor chain (a rebuilt entry that lacks field "+missing+": a memo without the tombstone flag turns a removal into a hit on the placeholder value)")
 		}
 	})
-	r.Min(rule, 4)
 }
 
 func keySame(r *engine.Run) {
@@ -958,56 +985,65 @@ func capAbsence(r *engine.Run, rule string) {
 func retPair(r *engine.Run, rule string) {
 	n := 0
 	for _, m := range []struct{ recv string }{{"TransactionCache"}, {"BlockCache"}, {"StateCache"}, {"QueryBlockCache"}} {
-		f := r.Fn(rule, pkgSC, m.recv, "Get")
-		if f == nil {
+		top := r.Fn(rule, pkgSC, m.recv, "Get")
+		if top == nil {
 			continue
 		}
-		o := ord{}
-		for _, ret := range engine.Returns(f) {
-			if ret.Block().Comment == "recover" || len(ret.Results) != 2 {
+		group := opGroup(r, top)
+		for _, f := range group {
+			if f.Signature.Results().Len() != 2 {
 				continue
 			}
-			n++
-			v, okv := resultValue(ret, 0), resultValue(ret, 1)
-			why, bad := "", ""
-			ev, isEv := v.(*ssa.Extract)
-			eo, isEo := okv.(*ssa.Extract)
-			switch {
-			case isEv && isEo && ev.Tuple == eo.Tuple && ev.Index == 0 && eo.Index == 1:
-				if c, ok := ev.Tuple.(*ssa.Call); ok {
-					if _, isGet := engine.IsMethodCall(c, "Get"); isGet {
-						why = "returns both results of the next layer's Get"
-					}
+			o := ord{}
+			for _, ret := range engine.Returns(f) {
+				if ret.Block().Comment == "recover" || len(ret.Results) != 2 {
+					continue
 				}
-				if why == "" {
-					bad = "returns the results of something other than a Get of the next layer"
-				}
-			default:
-				oc, isConst := okv.(*ssa.Const)
-				if !isConst || oc.Value == nil {
-					bad = "the hit flag is neither a constant nor the next layer's"
-					break
-				}
-				hit := oc.Value.ExactString() == "true"
-				if hit {
-					if c, ok := v.(*ssa.Call); ok {
-						if _, isClone := engine.IsMethodCall(c, "Clone"); isClone {
-							why = "hit with a Clone() of the entry's data"
+				n++
+				v, okv := resultValue(ret, 0), resultValue(ret, 1)
+				why, bad := "", ""
+				ev, isEv := v.(*ssa.Extract)
+				eo, isEo := okv.(*ssa.Extract)
+				switch {
+				case isEv && isEo && ev.Tuple == eo.Tuple && ev.Index == 0 && eo.Index == 1:
+					if c, ok := ev.Tuple.(*ssa.Call); ok {
+						if _, isGet := engine.IsMethodCall(c, "Get"); isGet {
+							why = "returns both results of the next layer's Get"
+						}
+						if h := c.Call.StaticCallee(); h != nil && h != f && inGroup(group, h) {
+							why = "returns both results of " + h.Name() + ", a helper of this lookup (judged there)"
 						}
 					}
 					if why == "" {
-						bad = "reports a hit without returning a Clone() of an entry's data"
+						bad = "returns the results of something other than a Get of the next layer"
 					}
-				} else {
-					if nilConst(v) {
-						why = "miss with a nil value"
+				default:
+					oc, isConst := okv.(*ssa.Const)
+					if !isConst || oc.Value == nil {
+						bad = "the hit flag is neither a constant nor the next layer's"
+						break
+					}
+					hit := oc.Value.ExactString() == "true"
+					if hit {
+						if c, ok := v.(*ssa.Call); ok {
+							if _, isClone := engine.IsMethodCall(c, "Clone"); isClone {
+								why = "hit with a Clone() of the entry's data"
+							}
+						}
+						if why == "" {
+							bad = "reports a hit without returning a Clone() of an entry's data"
+						}
 					} else {
-						bad = "reports a miss together with a value"
+						if nilConst(v) {
+							why = "miss with a nil value"
+						} else {
+							bad = "reports a miss together with a value"
+						}
 					}
 				}
+				r.Check(bad == "", rule, o.next(fn(f)+"|return"), r.P.Pos(ret.Pos()), why,
+					"the two results of the lookup do not agree: "+bad)
 			}
-			r.Check(bad == "", rule, o.next(fn(f)+"|return"), r.P.Pos(ret.Pos()), why,
-				"the two results of the lookup do not agree: "+bad)
 		}
 	}
 	if n < 10 {
